@@ -168,7 +168,7 @@ class _ValidateBits(Contract):
     def bad(self, ip, a, old):
         g = lambda f: iv(old.get(a.self, f))
         if self.cls is CompressedFrame:
-            return Or(g('rsv2') != 0, g('rsv3') != 0)
+            return Or(g('rsv2') != 0, g('rsv3') != 0, And(g('rsv1') != 0, g('opcode') >= 8))
         return Or(g('rsv1') != 0, g('rsv2') != 0, g('rsv3') != 0)
 
     def raises(self, ip, a, old):
@@ -203,7 +203,7 @@ class FrameValidate(Contract):
         g = lambda f: iv(old.get(a.self, f))
         cls = ip.st.obj(a.self).cls
         plen = ip.bytes_of(old.get(a.self, 'payload')).n
-        rsv_bad = Or(g('rsv2') != 0, g('rsv3') != 0) if issubclass(cls, CompressedFrame) else \
+        rsv_bad = Or(g('rsv2') != 0, g('rsv3') != 0, And(g('rsv1') != 0, g('opcode') >= 8)) if issubclass(cls, CompressedFrame) else \
             Or(g('rsv1') != 0, g('rsv2') != 0, g('rsv3') != 0)
         op = g('opcode')
         return Or(And(op >= 8, plen > 125), rsv_bad, Or(*[op == r for r in rfc6455.RESERVED_OPCODES]),
